@@ -11,6 +11,7 @@ import concurrent.futures as cf
 import copy
 import json
 import os
+import re
 import sys
 
 from vlib import Ob, run_all, VERIF, set_prepare, NCPU
@@ -42,65 +43,82 @@ def callee_cases(tier, seed):
 
 
 def leg_callee(tier, scratch, dumper, seed):
-    levels = [2] if tier == "quick" else [0, 1, 2, 3]
-    cs = callee_cases(tier, seed)
-    groups = gp.pack(cs, C05.PER_GROUP, "callee")
-    chunks = C05.chunked(groups, C05.CHUNK)
-    for ix, ch in enumerate(chunks):
-        members = [c for g in ch for c in g[1]]
-        base = os.path.join(scratch, "cal%03d" % ix)
-        gp.emit_callee_mir(base + ".mir", members)
-        gp.emit_cases_h(base + "_cases.h", members, [(g[0], g[1]) for g in ch], "h_run_callee_case", "LIFT_F_%s_ADDR")
+    """quick: the quick enumeration at -O2.  thorough: the thorough enumeration at -O2 and the quick enumeration at -O0, -O1, -O3
+    (4 levels x the thorough enumeration did not fit the time budget)."""
+    plans = [("cal", callee_cases(tier, seed), [2])]
+    if tier == "thorough":
+        plans.append(("calq", callee_cases("quick", seed), [0, 1, 3]))
+    obs, fp, total = [], {"frame pointer kept": 0, "frame pointer omitted": 0}, 0
+    for prefix, cs, levels in plans:
+        total += len(cs) * len(levels)
+        groups = gp.pack(cs, C05.PER_GROUP, "callee")
+        chunks = C05.chunked(groups, C05.CHUNK)
+        for ix, ch in enumerate(chunks):
+            members = [c for g in ch for c in g[1]]
+            base = os.path.join(scratch, "%s%03d" % (prefix, ix))
+            gp.emit_callee_mir(base + ".mir", members)
+            gp.emit_cases_h(base + "_cases.h", members, [(g[0], g[1]) for g in ch], "h_run_callee_case", "LIFT_F_%s_ADDR")
 
-    def make(job):
-        ix, lv = job
-        members = [c for g in chunks[ix] for c in g[1]]
-        base = os.path.join(scratch, "cal%03d" % ix)
-        C05.sh([dumper, "-O%d" % lv, base + ".mir"], out="%s_O%d.json" % (base, lv))
-        C05.sh([sys.executable, LIFT, "%s_O%d.json" % (base, lv), "--only", ",".join("f_" + c["name"] for c in members),
-                "-o", "%s_O%d_lifted.c" % (base, lv)])
+        def make(job, prefix=prefix, chunks=chunks):
+            ix, lv = job
+            members = [c for g in chunks[ix] for c in g[1]]
+            base = os.path.join(scratch, "%s%03d" % (prefix, ix))
+            C05.sh([dumper, "-O%d" % lv, base + ".mir"], out="%s_O%d.json" % (base, lv))
+            C05.sh([sys.executable, LIFT, "%s_O%d.json" % (base, lv), "--only", ",".join("f_" + c["name"] for c in members),
+                    "-o", "%s_O%d_lifted.c" % (base, lv)])
 
-    with cf.ThreadPoolExecutor(NCPU) as ex:
-        list(ex.map(make, [(ix, lv) for ix in range(len(chunks)) for lv in levels]))
-    obs = []
-    for ix, ch in enumerate(chunks):
-        base = os.path.join(scratch, "cal%03d" % ix)
-        for lv in levels:
-            for gname, members, kind in ch:
-                obs.append(Ob("%s.O%d" % (gname.replace("callee_", "callee.", 1), lv), "C06/callee.c",
-                              defs=['ABI_LIFTED="%s_O%d_lifted.c"' % (base, lv), 'ABI_CASES="%s_cases.h"' % base, "H_ND_MAX=16384"],
-                              cc=CC, entry=gname, unwind=70, object_bits=10, flags=FLAGS, timeout=600 if tier == "quick" else 1200,
-                              sample="-O%d code of %d functions with parameter kinds {%s}, e.g. %s; argument values, callee-saved registers, "
-                                     "caller stack symbolic" % (lv, len(members), kind, gp.describe(members[0]) + members[0].get("note", ""))))
-    return obs, len(cs)
+        with cf.ThreadPoolExecutor(NCPU) as ex:
+            list(ex.map(make, [(ix, lv) for ix in range(len(chunks)) for lv in levels]))
+        # frame layouts seen (DESIGN C06: "the evidence counts how many of each"): a function that keeps the frame pointer starts with
+        # `mov [rsp-8],rbp`, one that omits it does not
+        for ix in range(len(chunks)):
+            for lv in levels:
+                txt = open("%s_O%d_lifted.c" % (os.path.join(scratch, "%s%03d" % (prefix, ix)), lv)).read()
+                for m in re.finditer(r"void lift_f_\w+ \(x86_state \*s\) \{\n[^\n]*\n\s*/\* [0-9a-f]+: ([^\n]*) \*/", txt):
+                    fp["frame pointer kept" if "rbp" in m.group(1) else "frame pointer omitted"] += 1
+        for ix, ch in enumerate(chunks):
+            base = os.path.join(scratch, "%s%03d" % (prefix, ix))
+            for lv in levels:
+                for gname, members, kind in ch:
+                    obs.append(Ob("%s.O%d" % (gname.replace("callee_", "callee.", 1), lv), "C06/callee.c",
+                                  defs=['ABI_LIFTED="%s_O%d_lifted.c"' % (base, lv), 'ABI_CASES="%s_cases.h"' % base, "H_ND_MAX=%d" % C05.ND_MAX],
+                                  cc=CC, entry=gname, unwind=70, object_bits=10, flags=FLAGS, timeout=600 if tier == "quick" else 1200,
+                                  sample="-O%d code of %d functions with parameter kinds {%s}, e.g. %s; argument values, callee-saved registers, "
+                                         "caller stack symbolic" % (lv, len(members), kind, gp.describe(members[0]) + members[0].get("note", ""))))
+    META["bounds"]["frame layouts"] = "%d functions keep the frame pointer, %d omit it" % (fp["frame pointer kept"], fp["frame pointer omitted"])
+    return obs, total
 
 
 def leg_va(tier, scratch, dumper, seed):
-    levels = [2] if tier == "quick" else [0, 1, 2, 3]
-    cs = gp.va_cases(tier, seed)
-    by = {}
-    for c in cs:
-        by.setdefault(c["shape"], []).append(c)
-    groups = [("va_int%d_fp%d" % k, by[k]) for k in sorted(by)]
-    base = os.path.join(scratch, "va")
-    gp.emit_va_mir(base + ".mir", cs)
-    gp.emit_cases_h(base + "_cases.h", cs, groups, "h_run_va_case", "LIFT_F_%s_ADDR")
+    """quick: quick shapes at -O2.  thorough: all 99 shapes (+ block shapes) at -O2, the quick shapes at -O0, -O1, -O3."""
+    plans = [("va", gp.va_cases(tier, seed), [2])]
+    if tier == "thorough":
+        plans.append(("vaq", gp.va_cases("quick", seed), [0, 1, 3]))
+    obs, total = [], 0
+    for prefix, cs, levels in plans:
+        total += len(cs) * len(levels)
+        by = {}
+        for c in cs:
+            by.setdefault(c["group"], []).append(c)
+        groups = [("va_" + k, by[k]) for k in sorted(by)]
+        base = os.path.join(scratch, prefix)
+        gp.emit_va_mir(base + ".mir", cs)
+        gp.emit_cases_h(base + "_cases.h", cs, groups, "h_run_va_case", "LIFT_F_%s_ADDR")
 
-    def make(lv):
-        C05.sh([dumper, "-O%d" % lv, base + ".mir"], out="%s_O%d.json" % (base, lv))
-        C05.sh([sys.executable, LIFT, "%s_O%d.json" % (base, lv), "--only", ",".join("f_" + c["name"] for c in cs), "-o", "%s_O%d_lifted.c" % (base, lv)])
+        def make(lv, base=base, cs=cs):
+            C05.sh([dumper, "-O%d" % lv, base + ".mir"], out="%s_O%d.json" % (base, lv))
+            C05.sh([sys.executable, LIFT, "%s_O%d.json" % (base, lv), "--only", ",".join("f_" + c["name"] for c in cs), "-o", "%s_O%d_lifted.c" % (base, lv)])
 
-    with cf.ThreadPoolExecutor(len(levels)) as ex:
-        list(ex.map(make, levels))
-    obs = []
-    for lv in levels:
-        for gname, members in groups:
-            obs.append(Ob("%s.O%d" % (gname.replace("va_", "va.", 1), lv), "C06/va.c",
-                          defs=['ABI_LIFTED="%s_O%d_lifted.c"' % (base, lv), 'ABI_CASES="%s_cases.h"' % base, "H_ND_MAX=8192"],
-                          cc=CC, entry=gname, unwind=70, object_bits=12, flags=FLAGS, timeout=600,
-                          sample="-O%d: %d named i64 and %d named d parameters, then `...` read with va_arg: %s" % (
-                              lv, members[0]["shape"][0], members[0]["shape"][1], "; ".join("/".join(m["va"]) for m in members))))
-    return obs, len(cs)
+        with cf.ThreadPoolExecutor(len(levels)) as ex:
+            list(ex.map(make, levels))
+        for lv in levels:
+            for gname, members in groups:
+                obs.append(Ob("%s.O%d" % (gname.replace("va_", "va.", 1), lv), "C06/va.c",
+                              defs=['ABI_LIFTED="%s_O%d_lifted.c"' % (base, lv), 'ABI_CASES="%s_cases.h"' % base, "H_ND_MAX=%d" % C05.ND_MAX],
+                              cc=CC, entry=gname, unwind=70, object_bits=12, flags=FLAGS, timeout=600,
+                              sample="-O%d: named parameters (%s), then `...` read with va_arg: %s" % (
+                                  lv, ", ".join(members[0]["args"][:members[0]["nnamed"]]), "; ".join("/".join(m["va"]) for m in members))))
+    return obs, total
 
 
 SHIM_ARGS = [
@@ -140,7 +158,7 @@ def leg_shim(tier, scratch, dumper, seed):
     obs = []
     for gname, members in groups:
         obs.append(Ob(gname.replace("shim_", "shim.", 1), "C06/shim.c",
-                      defs=['ABI_LIFTED="%s_lifted.c"' % base, 'ABI_CASES="%s_cases.h"' % base, "H_ND_MAX=16384"],
+                      defs=['ABI_LIFTED="%s_lifted.c"' % base, 'ABI_CASES="%s_cases.h"' % base, "H_ND_MAX=%d" % C05.ND_MAX],
                       cc=CC, entry=gname, unwind=70, object_bits=10, flags=FLAGS, timeout=600,
                       sample="interp shims of %d result lists (%s ...); all entry registers (128-bit xmm), caller stack, interpreter results symbolic"
                              % (len(members), "; ".join(",".join(m["res"]) or "void" for m in members[:4]))))
@@ -162,7 +180,8 @@ def prepare(tier, scratch):
 META = {
     "bounds": {"arguments": "<= 20 per signature", "alloca": "constant 32 bytes / variable with the concrete size 24 (rounding path) / none",
                "live values": "0, 8 or 20 across one external call", "va": "named parameters: 0..9 i64 and 0..9 d (quick: the two axes + 9 mixed "
-               "shapes, thorough: all 99), tails i64,i64 / d,d / i64,d,ld / ld,i64,d (thorough + d,i64,i64)",
+               "shapes, thorough: all 99) and 10 lists with by-value blocks / long doubles; tails i64,i64 / d,d / i64,d,ld / ld,i64,d (thorough + d,i64,i64)",
+               "levels": "quick: -O2; thorough: the thorough enumeration at -O2 and the quick enumeration at -O0, -O1, -O3",
                "values": "all argument values, callee-saved registers, caller stack words, results symbolic"},
     "assumptions": [
         "oracle = ref/sysv_call_ref.h (psABI 3.2.3, 3.5.7 + MIR.md)",
